@@ -221,3 +221,34 @@ add("C20", M, GS, "if not (0.0 <= constraint_weight <= 1.0):", "if not (0.0 <= c
 add("C20", R, IV, "        if enforce_binary_labels and not set(np.unique(y)).issubset(set([0, 1])):", "        if enforce_binary_labels and not set(np.unique(y)).issubset({0, 1}):", "set literal")
 add("C20", R, GS, "            if not (0.0 <= constraint_weight <= 1.0):", "            if constraint_weight < 0.0 or constraint_weight > 1.0:", "De Morgan")
 add("C20", R, TC, "    if n_positive == 0 or n_negative == 0:", "    if not (n_positive != 0 and n_negative != 0):", "De Morgan")
+
+# ------------------------------------------------------------------ extract-method refactors (behaviour preserving)
+add("C06", R, UP, "        self.U = pd.DataFrame(0, index=self.tags.index, columns=self.index)\n        for e, g in self.prob_group_event.index:",
+    "        self._fill_U()\n\n    def _fill_U(self):\n        self.U = pd.DataFrame(0, index=self.tags.index, columns=self.index)\n        for e, g in self.prob_group_event.index:",
+    "extract method: U matrix fill")
+add("C07", R, UP, "        self.U = pd.DataFrame(0, index=self.tags.index, columns=self.index)\n        for e, g in self.prob_group_event.index:",
+    "        self._fill_U()\n\n    def _fill_U(self):\n        self.U = pd.DataFrame(0, index=self.tags.index, columns=self.index)\n        for e, g in self.prob_group_event.index:",
+    "extract method: U matrix fill")
+add("C08", R, EG, "            theta += eta * (gamma - self.constraints.bound())",
+    "            theta = self._step(theta, eta, gamma)",
+    "extract method: theta step (helper added below)")
+add("C16", R, PT, "            p.grad = dW_LP[i] - (proj * unit_dW_LA) - (self.base.alpha * dW_LA[i])",
+    "            p.grad = self._combine(dW_LP[i], proj, unit_dW_LA, dW_LA[i])",
+    "extract method: gradient combination (helper added below)")
+add("C15", R, CR, "        X_s_center = X_sensitive - self.sensitive_mean_\n        self.beta_, _, _, _ = np.linalg.lstsq(X_s_center, X_use, rcond=None)",
+    "        self.beta_ = self._solve(X_sensitive - self.sensitive_mean_, X_use)",
+    "extract method: least squares (helper added below)")
+add("C20", R, IV, "        if enforce_binary_labels and not set(np.unique(y)).issubset(set([0, 1])):\n            raise ValueError(_LABELS_NOT_0_1_ERROR_MESSAGE)",
+    "        _check_binary(y, enforce_binary_labels)", "extract function: binary label guard (helper added below)")
+
+# helper definitions that the extract-method refactors above rely on: (file, anchor, appended text)
+EXTRA_EDITS = {
+    "extract method: theta step (helper added below)": (EG, "    def predict(self, X, random_state=None):",
+                                                         "    def _step(self, theta, eta, gamma):\n        return theta + eta * (gamma - self.constraints.bound())\n\n    def predict(self, X, random_state=None):"),
+    "extract method: gradient combination (helper added below)": (PT, "    def get_optimizer(self, optim_param, model):",
+                                                                   "    def _combine(self, g_p, proj, unit, g_a):\n        return g_p - (proj * unit) - (self.base.alpha * g_a)\n\n    def get_optimizer(self, optim_param, model):"),
+    "extract method: least squares (helper added below)": (CR, "    def transform(self, X):",
+                                                            "    def _solve(self, S, Z):\n        beta, _, _, _ = np.linalg.lstsq(S, Z, rcond=None)\n        return beta\n\n    def transform(self, X):"),
+    "extract function: binary label guard (helper added below)": (IV, "def _merge_columns(feature_columns: np.ndarray) -> np.ndarray:",
+                                                                   "def _check_binary(y, enforce):\n    if enforce and not set(np.unique(y)).issubset(set([0, 1])):\n        raise ValueError(_LABELS_NOT_0_1_ERROR_MESSAGE)\n\n\ndef _merge_columns(feature_columns: np.ndarray) -> np.ndarray:"),
+}
